@@ -29,6 +29,9 @@ P_VersionsHonest(o) == Two(o) => \A c \in Cl(o) :
 \* every send_message issued was delivered (checked only on runs that ended quiescent, connected, unclosed)
 P_AllDelivered(o) == (Two(o) /\ o.goal) => \A c \in Cl(o) : Recv(o, c) = o.cl[PeerOf(o, c)].sent
 P_KeyEstablished(o) == (Two(o) /\ o.goal) => \A c \in Cl(o) : CountOf(EvOf(o, c), "verifier") = 1
+\* every versions / message event was backed by a frame its named sender really added under exactly that phase and
+\* that had been delivered to this client before the event (ground truth kept by the harness per delivered frame)
+P_Backed(o) == \A c \in Cl(o) : o.cl[c].unbacked = <<>>
 \* ---- C08
 P_ClosedOnce(o) == \A c \in Cl(o) : ClosedOnceEv(EvOf(o, c))
 P_NothingAfter(o) == \A c \in Cl(o) : NothingAfterClosed(EvOf(o, c))
@@ -62,10 +65,10 @@ P_OnlyOneCode(o) == \A c \in Cl(o) :
 
 Names == <<"NoInternal", "DocVerdict", "OnceEach", "Causal", "VersionsFirst", "LateGets", "InOrderOnce",
            "VersionsHonest", "AllDelivered", "KeyEstablished", "ClosedOnce", "NothingAfter", "Verdict", "Freed",
-           "CloseCompletes", "KeyAgree", "OnlyOneCode">>
+           "CloseCompletes", "KeyAgree", "OnlyOneCode", "Backed">>
 Vector(o) == <<P_NoInternal(o), P_DocVerdict(o), P_OnceEach(o), P_Causal(o), P_VersionsFirst(o), P_LateGets(o),
                P_InOrderOnce(o), P_VersionsHonest(o), P_AllDelivered(o), P_KeyEstablished(o), P_ClosedOnce(o),
-               P_NothingAfter(o), P_Verdict(o), P_Freed(o), P_CloseCompletes(o), P_KeyAgree(o), P_OnlyOneCode(o)>>
+               P_NothingAfter(o), P_Verdict(o), P_Freed(o), P_CloseCompletes(o), P_KeyAgree(o), P_OnlyOneCode(o), P_Backed(o)>>
 
 VARIABLE k
 Init == k = 0
